@@ -9,6 +9,7 @@ MCD == { [id |-> 1, file |-> "a.go", line |-> 1, endcol |-> 0, cat |-> "SA4000",
          [id |-> 3, file |-> "a.go", line |-> 2, endcol |-> 0, cat |-> "U1000",  msg |-> "u", all |-> TRUE],
          [id |-> 4, file |-> "b.go", line |-> 1, endcol |-> 0, cat |-> "S1002",  msg |-> "b", all |-> TRUE],
          [id |-> 5, file |-> "a.go", line |-> 2, endcol |-> 9, cat |-> "U1000",  msg |-> "u", all |-> TRUE] }
+MCDforeign == { d \in MCD : d.id \in {1, 3, 4} }
 MCDsmall == { d \in MCD : d.id \in {1, 2, 3, 4} }
 MCNames == <<"b1", "b2", "">>
 =============================================================================
